@@ -1227,7 +1227,11 @@ class Shape:
                 a0.axis = ax
             return ListT(Tup([Ix(ax) if ax is not None else Q(), el]), axis=ax)
         if f == 'zip':
-            return ListT(Tup([self.iter_elem(a) for a in args]))
+            # the zipped sequences are walked in step: the k-th tuple holds the k-th element of each, so the list runs over their common leading axis
+            axs = [a.axis if isinstance(a, ListT) else (a.axes[0] if isinstance(a, Arr) and a.axes else None) for a in args]
+            known = [x for x in axs if x is not None and not is_unk(x)]
+            zax = known[0] if known and all(x is known[0] for x in known) else None
+            return ListT(Tup([self.iter_elem(a) for a in args]), axis=zax)
         if f in ('list', 'tuple'):
             return a0 if isinstance(a0, ListT) else (ListT(self.iter_elem(a0), axis=a0.axes[0] if isinstance(a0, Arr) and a0.axes else None) if args else ListT(UNK))
         if f == 'sorted':
